@@ -93,7 +93,7 @@ func TestC19(t *testing.T) {
 	if os.Getenv("VERIF_TIER") == "thorough" {
 		maxLen = 8 << 20
 	}
-	col := ev.Get("C19", "output", "1-6 jobs x 1-4 tasks running at the same time through the real TaskRunner; each task has 1-4 commands, each 'vhelper emit <spec>' (a generated sequence of stdout/stderr chunks with pauses; sizes 0 B to 300 KB, 8 MB in the thorough tier; partial last lines; arbitrary bytes or valid UTF-8) or an interpreter builtin (echo/printf); every chunk starts with a (job,task,stream,#) marker; task names over letters/digits/_-. space and non-ASCII; oracle: FileOutputStore.Reader(job,task,stream) equals the concatenation, in order, of that task's chunks for that stream over all its commands, GET /job/logs returns the same as strings (UTF-8 tasks), a task the job does not have and an unknown job give 404; a sixth of the tasks end with a failing command (their output up to it must still be complete) and half of the cases run a second round of the same jobs on the same store; non-trivial = >=64 KiB on a stream or >=2 commands or both streams used, with >=2 tasks writing at once; distinct by (shape of the case)")
+	col := ev.Get("C19", "output", "1-6 jobs x 1-4 tasks running at the same time through the real TaskRunner; each task has 1-4 commands, each 'vhelper emit <spec>' (a generated sequence of stdout/stderr chunks with pauses; sizes 0 B to 300 KB, 8 MB in the thorough tier; partial last lines; arbitrary bytes or valid UTF-8) an interpreter builtin (echo/printf), or a child that re-opens /dev/stdout or /dev/stderr by path (> and >>); every chunk starts with a (job,task,stream,#) marker; task names over letters/digits/_-. space and non-ASCII; oracle: FileOutputStore.Reader(job,task,stream) equals the concatenation, in order, of that task's chunks for that stream over all its commands, GET /job/logs returns the same as strings (UTF-8 tasks), a task the job does not have and an unknown job give 404; a sixth of the tasks end with a failing command (their output up to it must still be complete) and half of the cases run a second round of the same jobs on the same store; non-trivial = >=64 KiB on a stream or >=2 commands or both streams used, with >=2 tasks writing at once; distinct by (shape of the case)")
 	vh := helper(t)
 	rapid.Check(t, func(rt *rapid.T) {
 		nJobs := rapid.IntRange(1, 6).Draw(rt, "nJobs")
@@ -112,7 +112,18 @@ func TestC19(t *testing.T) {
 				nCmd := rapid.IntRange(1, 4).Draw(rt, "nCommands")
 				var script []string
 				for c := 0; c < nCmd; c++ {
-					switch rapid.IntRange(0, 5).Draw(rt, "cmdKind") {
+					switch rapid.IntRange(0, 7).Draw(rt, "cmdKind") {
+					case 6:
+						// a child that re-opens its standard streams by path
+						txt := fmt.Sprintf("<j%d/t%d/devstdout#%d>%s", j, ti, c, rapid.StringMatching(`[a-zA-Z0-9 _.,:-]{0,40}`).Draw(rt, "devText"))
+						redir := rapid.SampledFrom([]string{">", ">>"}).Draw(rt, "redir")
+						script = append(script, "sh -c "+shq("printf '%s' "+shq(txt)+" "+redir+" /dev/stdout"))
+						te.stdout = append(te.stdout, txt...)
+					case 7:
+						txt := fmt.Sprintf("<j%d/t%d/devstderr#%d>%s", j, ti, c, rapid.StringMatching(`[a-zA-Z0-9 _.,:-]{0,40}`).Draw(rt, "devText"))
+						redir := rapid.SampledFrom([]string{">", ">>"}).Draw(rt, "redir")
+						script = append(script, "sh -c "+shq("printf '%s' "+shq(txt)+" "+redir+" /dev/stderr"))
+						te.stderr = append(te.stderr, txt...)
 					case 0:
 						txt := fmt.Sprintf("<j%d/t%d/echo#%d>%s", j, ti, c, rapid.StringMatching(`[a-zA-Z0-9 _.,:-]{0,40}`).Draw(rt, "echoText"))
 						script = append(script, "echo "+shq(txt))
